@@ -182,6 +182,9 @@ def rule_metrics_present(check):
 def run(check):
     check.guarded("PRINT-GATE", rule_print_gate)
     check.guarded("METRICS-PRESENT", rule_metrics_present)
+    from . import c04
+
+    check.guarded("PREDICATES", c04.rule_predicates)
     check.guarded("MODIFIED-HOOK", S.rule_modified_implies_hook)
     check.guarded("COUNT-ONCE", c15.rule_count_once)
     check.guarded("PROLOGUE-TRAILER", rule_prologue_trailer)
